@@ -113,11 +113,20 @@ def gen_equality(rng):
         path = rng.choice([[], [0], [0, 0], [1], [0, 1]])
         kind = domgen.node_kind(path)
 
-        if k < 4:
+        if k < 2:
             attr = rng.choice(sorted(domgen.ATTRS[kind]))
             ops.append({'op': 'set', 'tree': 'T2', 'path': path,
                         'attr': attr,
                         'value': domgen.valid_value(rng, kind, attr)})
+        elif k < 4:
+            # minimal perturbation of an existing content value
+            attr = rng.choice(['preamble', 'meta'] if kind != 'file'
+                              else ['diff', 'meta'])
+            how = 'reverse_keys' if attr == 'meta' else rng.choice(
+                ['append_nl', 'append_crlf', 'strip_nl', 'append_space',
+                 'swapcase', 'prepend_bom'])
+            ops.append({'op': 'tweak', 'tree': 'T2', 'path': path,
+                        'attr': attr, 'how': how})
         elif k < 6:
             ops.append({'op': 'meta_set', 'tree': 'T2', 'path': path,
                         'key': rng.choice(['k', 'zz']),
@@ -147,6 +156,12 @@ def gen_equality(rng):
 
 def generate(rng, tier, cls):
     ops = gen_assign(rng) if cls == 'assign' else gen_equality(rng)
+
+    if tier == 'thorough' and rng.chance(0.5):
+        # longer histories: a second batch on the same trees
+        more = gen_assign(rng) if cls == 'assign' else gen_equality(rng)
+        ops = ops + [o for o in more if o['op'] != 'new_tree' or
+                     o.get('tree') == 'T2' and cls == 'assign']
     return {'actors': [{'id': 'A1', 'kind': 'dom', 'ops': ops}],
             'schedule': [], 'faults': []}
 
@@ -219,6 +234,8 @@ def execute(scn, L):
                                                    else 'invalid'))
                 out.states.add('%s|ctor-rejected|%s' % (
                     kind, 'unknown' if unknown else 'invalid'))
+        elif name == 'tweak' and r['outcome'] == 'ok':
+            out.probe('tweak:' + str(op.get('how')))
         elif name in ('eq', 'ne') and r['outcome'] == 'ok':
             se = r.get('snap_equal')
             want = se if name == 'eq' else (not se)
